@@ -4,6 +4,6 @@ CONSTANTS
   Atomic = TRUE
   MaxCrash = 3
   Scenario = "fresh"
-  EditOps = {"none", "reset", "set", "resetsub"}
+  EditOps = {"none", "reset", "set", "resetsub", "resetcli"}
 INVARIANT Progress
 CHECK_DEADLOCK FALSE
